@@ -4,7 +4,8 @@ n=$1
 cd /verif || exit 1
 git -C /repo log --format='%h %s' main..ag-$n | head
 for c in $(git -C /repo rev-list --reverse main..ag-$n); do git -C /repo cherry-pick $c >/dev/null 2>&1 || { echo "CHERRY-PICK CONFLICT $c"; exit 1; }; done
-git merge --no-edit ag-$n >/dev/null 2>&1
+git add -A; git commit -qm "wip before merging ag-$n" 2>/dev/null
+git merge --no-edit ag-$n >/dev/null 2>&1 || git diff --name-only --diff-filter=U | grep -q . || { echo "MERGE FAILED (branch kept)"; exit 1; }
 for f in $(git diff --name-only --diff-filter=U); do
   case $f in evidence/*|seeded/STATUS.*) git checkout --theirs -- "$f" 2>/dev/null || git checkout --ours -- "$f"; git add "$f";; *) echo "CONFLICT: $f";; esac
 done
